@@ -145,7 +145,12 @@ def case(ctx, i, rec):
     if "call" in _last:
         cts, tin, eps, iters, tout = _last["call"]
         rec.count("constrain_ages_calls")
-        check_edges(rec, cts, tout, eps, "constrain_ages-return")
+        if not np.all(np.isfinite(tin)):
+            # the method handed over a NaN/inf posterior mean (e.g. linear-space underflow):
+            # nothing constrain_ages can do; the failed call is C35's business
+            rec.count("constrain_ages_called_with_nonfinite_means")
+        else:
+            check_edges(rec, cts, tout, eps, "constrain_ages-return")
         if np.any(tout != tin):
             rec.count("constrain_moved_some_node")
         if float(np.max(tout)) > 2.0**53 * eps:
